@@ -34,4 +34,8 @@ VARIANTS = [
              new="        selected_molecules = [\n            mol\n            for mol in system.molecules\n            if self.molecule_selector(mol)\n        ]")]),
     dict(name='benign-lengths-from-filtered-comp', expect='silent', edits=[
         dict(file=D, old="            for molecule in selected_molecules\n        ]", new="            for molecule in system.molecules\n            if self.molecule_selector(molecule)\n        ]")]),
+    dict(name='generated-helix-table-off-by-one (seed C17_e)', expect='fire', key='TAB-helix|run7', edits=[
+        dict(file=D, old="    patterns = collections.OrderedDict([\n        ('.H.', '.3.'), ('.HH.', '.33.'), ('.HHH.', '.333.'),\n        ('.HHHH.', '.3333.'), ('.HHHHH.', '.13332.'),\n        ('.HHHHHH.', '.113322.'), ('.HHHHHHH.', '.1113222.'),\n        ('.HHHH', '.1111'), ('HHHH.', '2222.'),\n    ])\n", new="    patterns = collections.OrderedDict()\n    for length in range(1, 5):\n        patterns['.' + 'H' * length + '.'] = '.' + '3' * length + '.'\n    for length in range(5, 7):\n        caps = length - 4\n        core = length - 2 * caps\n        patterns['.' + 'H' * length + '.'] = (\n            '.' + '1' * caps + '3' * core + '2' * caps + '.'\n        )\n    patterns['.HHHH'] = '.1111'\n    patterns['HHHH.'] = '2222.'\n")]),
+    dict(name='benign-generated-helix-table', expect='silent', edits=[
+        dict(file=D, old="    patterns = collections.OrderedDict([\n        ('.H.', '.3.'), ('.HH.', '.33.'), ('.HHH.', '.333.'),\n        ('.HHHH.', '.3333.'), ('.HHHHH.', '.13332.'),\n        ('.HHHHHH.', '.113322.'), ('.HHHHHHH.', '.1113222.'),\n        ('.HHHH', '.1111'), ('HHHH.', '2222.'),\n    ])\n", new="    patterns = collections.OrderedDict()\n    for length in range(1, 5):\n        patterns['.' + 'H' * length + '.'] = '.' + '3' * length + '.'\n    for length in range(5, 8):\n        caps = length - 4\n        core = length - 2 * caps\n        patterns['.' + 'H' * length + '.'] = (\n            '.' + '1' * caps + '3' * core + '2' * caps + '.'\n        )\n    patterns['.HHHH'] = '.1111'\n    patterns['HHHH.'] = '2222.'\n")]),
 ]
